@@ -23,6 +23,8 @@ def src(name, d, compname="c1"):
         if blk == "a" and d["nest"] and d["b"] != "none":
             inner = block("b")
             s += ("{% filter safe %}" + inner + "{% endfilter %}") if d["cap"] else inner
+            if d.get("sib"):          # a second new block next to the nested one
+                s += "{% block c %}c" + name + ("[" if d.get("v2") else "(") + "){% endblock %}"
         if d[blk] == "super" and after:
             s += "{{ super() }}"
         if blk == "a" and d["inc"] and d["incpos"] == "block":
